@@ -39,7 +39,9 @@ meta['demo_exit_without_change'] = d0
 confirmed = ok_tests and d1 != 0 and d0 == 0
 meta['confirmed'] = confirmed
 print('confirmed' if confirmed else 'NOT CONFIRMED', tail, d1, d0)
-dst = os.path.join('/verif/seeded', f'{prop}-{n}')
+V = os.environ.get('VERIF_DIR', '/verif')      # lanes: a copy of /verif and its own worktree of /repo
+R = os.environ.get('VERIF_REPO', '/repo')
+dst = os.path.join(V, 'seeded', f'{prop}-{n}')
 if confirmed:
     os.makedirs(dst, exist_ok=True)
     shutil.copy(patch, os.path.join(dst, 'patch.diff'))
@@ -49,19 +51,19 @@ if confirmed:
         notes = open(os.path.join(out, 'notes.md')).read()
         meta['needs_to_manifest'] = notes[:1500]
     # ---- run our check(s) against /repo with the change
-    rc, o = sh(f'git -C /repo apply {patch}')
+    rc, o = sh(f'git -C {R} apply {patch}')
     assert rc == 0, o
     try:
         for p in sys.argv[4:] or [prop]:
             t0 = time.time()
-            rc, o = sh(f'{PY} check.py {p} --tier quick', cwd='/verif', timeout=3000)
+            rc, o = sh(f'{PY} check.py {p} --tier quick', cwd=V, timeout=3000)
             lines = [l for l in o.splitlines() if 'VIOLATION' in l or 'KNOWN' in l]
             meta['ran'].append({'cmd': f'check.py {p} --tier quick', 'exit': rc, 'lines': lines[:3], 'secs': round(time.time() - t0)})
             print(p, 'exit', rc, lines[:2])
             for l in [x for x in lines if 'replay=' in x][:1]:
                 rp = l.split('replay=')[1].split()[0]
                 try:
-                    meta['replay_excerpt'] = json.load(open(os.path.join('/verif', rp)))
+                    meta['replay_excerpt'] = json.load(open(os.path.join(V, rp)))
                     for k in ('events', 'script', 'trace', 'all_failures'):
                         if k in meta['replay_excerpt'] and isinstance(meta['replay_excerpt'][k], list):
                             meta['replay_excerpt'][k] = meta['replay_excerpt'][k][-12:]
@@ -69,7 +71,7 @@ if confirmed:
                 except Exception:
                     pass
     finally:
-        sh('git -C /repo checkout -- .')
+        sh(f'git -C {R} checkout -- .')
     meta['detected'] = any(r['exit'] == 1 for r in meta['ran'])
     json.dump(meta, open(os.path.join(dst, 'meta.json'), 'w'), indent=1, default=str)
     print('detected' if meta['detected'] else 'MISSED')
